@@ -377,8 +377,9 @@ def contains_sym(x, depth=0):
 
 
 def S(x):
-    """Wrap a python number / z3 term as Sym (identity on Sym)."""
-    return x if isinstance(x, Sym) else Sym(lift(x))
+    """Wrap a python number / z3 term as Sym (identity on Sym, and on scalar value classes of library models that carry
+    `_pyvc_scalar = True`, e.g. C16's complex pairs, which implement the arithmetic protocol themselves)."""
+    return x if isinstance(x, Sym) or getattr(x, "_pyvc_scalar", False) else Sym(lift(x))
 
 
 def term(x):
